@@ -468,6 +468,16 @@ class Repo:
                     out.append('%s: %s (line %d)' % (f.key, hit, getattr(n, 'lineno', 0)))
         return out
 
+    def is_value_class(self, c: 'ClassInfo') -> bool:
+        """a plain record type (typing.NamedTuple / dataclass without behaviour of its own): an instance is fully described by
+        its constructor call, exactly like a ``collections.namedtuple`` instance, so analyses keep the call text"""
+        if any(b.split('.')[-1] == 'NamedTuple' for b in c.all_ext_bases()):
+            return True
+        decos = [ast.unparse(d) for d in c.node.decorator_list]
+        if any(d.split('(')[0].split('.')[-1] == 'dataclass' for d in decos) and not c.methods:
+            return True
+        return False
+
     def is_helper_class(self, c: 'ClassInfo') -> bool:
         """a class that did not exist when the rule instances were confirmed (oracles/inventory.py)"""
         from .oracles.inventory import CLASSES
